@@ -115,6 +115,12 @@ void base_shape(G &g, int min_clients, int max_clients) {
   g.sh.rxcap_small_pct = g.r.pct(25) ? 50 : 0;
   g.draw_faults((int)g.r.below(3));
   if (g.r.pct(30)) g.p.cfg["knob.read_limit"] = std::to_string(g.r.range(1, 64));
+  // a bus that has been up for a while: the connection traversal stamp (one tick per routed message) starts just
+  // below, at or beyond a power of two instead of at 0 (hook H7)
+  if (g.r.pct(12)) {
+    static const int64_t at[] = {255, 65535, 65535, 65536, 16777215, 1073741824};
+    g.p.cfg["stamp.start"] = std::to_string(at[g.r.below(6)] - (g.r.pct(60) ? (int64_t)g.r.below(40) : 0) + (g.r.pct(20) ? 65536 * (int64_t)g.r.below(5) : 0));
+  }
 }
 
 // ---------------------------------------------------------------- SMOKE
